@@ -22,6 +22,15 @@
 (* Mut = "nopstat" is a spec-level MUTANT: a throttling rule reads an      *)
 (* empty statistic (previous QPS always 0) - WarmAfterSat must fail.       *)
 (*                                                                         *)
+(* The statistic interval is a parameter of the rule (cfg.si, reject rules;*)
+(* it divides 1000 or is a multiple of it).  Sub-second: the demand of a   *)
+(* second arrives at the start of each of its 1000/si windows, `prev' and  *)
+(* the admission count are per WINDOW.  Several seconds: `rec' holds the   *)
+(* admissions of the seconds before the previous one that the window still *)
+(* covers; the reject checker sees them.  The calculator reads the previous*)
+(* window as a rate per second (WarmUpOps!Qps).  The envelope invariants   *)
+(* speak about the tokens of a statistic window (last.win).                *)
+(*                                                                         *)
 (* The rule parameters are STATE: Reload(c2) replaces the rule in force by *)
 (* a changed one (c2 \in Targets(cfg), at most MaxReload times) at a       *)
 (* second boundary.  As in the code the modified rule gets a fresh         *)
@@ -67,17 +76,23 @@ VARIABLES
     sat,        \* consecutive preceding seconds in which some request was blocked (saturating)
     starve,     \* consecutive seconds with demand and no admission, including the last one (saturating)
     stuck,      \* the idle period in progress began with stored = Warn (history-dependent defect)
-    last,       \* what the last Second(d) with d # 0 did: [al, n, adm, cold, warm, cap]
+    last,       \* what the last Second(d) with d # 0 did: [al, n, adm, win, cold, warm, cap]
+    rec,        \* admissions of the WinSecs - 1 seconds before the previous one (window longer than a second), oldest first
     ju, ra,     \* justified warm-up progress (ju / LCMP) and justified absolute rate carried over the last reload
     nre,        \* reloads so far
     h           \* demand history (scenario for the conformance driver; hidden by VIEW)
 
-vars == <<cfg, stored, gap, prev, idle, sat, starve, stuck, last, ju, ra, nre, h>>
-view == <<cfg, stored, gap, prev, idle, sat, starve, stuck, last, ju, ra, nre>>
+vars == <<cfg, stored, gap, prev, idle, sat, starve, stuck, last, rec, ju, ra, nre, h>>
+view == <<cfg, stored, gap, prev, idle, sat, starve, stuck, last, rec, ju, ra, nre>>
 
-Cap(c) == 2 * c.p + 6
+Cap(c) == 2 * c.p + 6 + WinSecs(c)
+RECURSIVE SeqSum(_)
+SeqSum(s) == IF s = << >> THEN 0 ELSE Head(s) + SeqSum(Tail(s))
+Zeros(k) == [i \in 1..k |-> 0]
+\* the window slides on by one second
+Shift(r, x) == IF r = << >> THEN << >> ELSE Append(Tail(r), x)
 Sat1(x, c) == Min2(x + 1, Cap(c))
-NoLast == [al |-> [n |-> 0, d |-> 1], n |-> 0, adm |-> 0, cold |-> FALSE, warm |-> FALSE, stuck |-> FALSE, cap |-> 0]
+NoLast == [al |-> [n |-> 0, d |-> 1], n |-> 0, adm |-> 0, win |-> 0, cold |-> FALSE, warm |-> FALSE, stuck |-> FALSE, cap |-> 0]
 
 Init ==
     /\ cfg \in Configs
@@ -85,7 +100,8 @@ Init ==
     /\ idle = IdleEnough(cfg) /\ sat = 0 /\ starve = 0 /\ stuck = FALSE
     /\ last = NoLast
     /\ ju = 0 /\ ra = RZero /\ nre = 0
-    /\ h = << [op |-> "new", tn |-> cfg.tn, td |-> cfg.td, p |-> cfg.p, c |-> cfg.c, cb |-> cfg.cb] >>
+    /\ rec = Zeros(WinSecs(cfg) - 1)
+    /\ h = << [op |-> "new", tn |-> cfg.tn, td |-> cfg.td, p |-> cfg.p, c |-> cfg.c, cb |-> cfg.cb, si |-> cfg.si] >>
 
 Quiet ==
     /\ gap' = IF gap < 0 THEN -1 ELSE Sat1(gap, cfg)
@@ -94,22 +110,25 @@ Quiet ==
     /\ idle' = Sat1(idle, cfg)
     /\ sat' = 0 /\ starve' = 0
     /\ last' = NoLast
+    /\ rec' = Shift(rec, prev)
     /\ h' = Append(h, [op |-> "sec", n |-> 0])
     /\ UNCHANGED <<cfg, stored, ju, ra, nre>>
 
 \* the previous QPS the calculator reads from the statistic of the rule
-PrevSeen == IF Mut = "nopstat" /\ Throttled(cfg) THEN 0 ELSE prev
+PrevSeen == IF Mut = "nopstat" /\ Throttled(cfg) THEN 0 ELSE prev + SeqSum(rec)       \* tokens of the previous statistic window
+\* tokens the window of the present second already holds (a window longer than a second)
+InWin == IF rec = << >> THEN 0 ELSE prev + SeqSum(Tail(rec))
 \* tokens admitted out of n single-token requests of one second at effective threshold al (a set: throttling is a relation)
 Admitted(al, n) ==
     IF ~Defined(al) THEN {n}                              \* "not a number" compares false with everything: nothing is blocked
-    ELSE IF ~Throttled(cfg) THEN {Min2(n, FloorR(al))}    \* at one instant: admitted while (k + 1) <= allowed
+    ELSE IF ~Throttled(cfg) THEN {Min2(n, Max2(0, FloorR(al) - InWin))}    \* at one instant: admitted while window + 1 <= allowed
     ELSE IF n > 1 THEN Paced(al)                          \* saturating demand over the whole second, spaced by 1/allowed
     ELSE IF al.n < al.d THEN {0}                          \* one token alone exceeds the threshold
     ELSE IF last.n > 1 /\ last.adm > 0 THEN {0, 1}        \* may still be inside the spacing owed to the previous second
     ELSE {1}
 
 Busy(d) ==
-    LET st  == Sync(cfg, stored, gap, PrevSeen)
+    LET st  == SyncQ(cfg, stored, gap, Qps(cfg, PrevSeen))
         al  == Allowed(cfg, st)
         n   == IF d = SAT THEN FloorT(cfg) + 2 ELSE 1
         cold == idle >= IdleEnough(cfg)
@@ -123,7 +142,8 @@ Busy(d) ==
         \* sustained demand: nothing is admitted, so nothing is drained)
         /\ sat' = IF adm < n /\ (~Throttled(cfg) \/ n > 1) THEN Sat1(sat, cfg) ELSE 0
         /\ starve' = IF adm = 0 THEN Sat1(starve, cfg) ELSE 0
-        /\ last' = [al |-> al, n |-> n, adm |-> adm, cold |-> cold, warm |-> sat >= WarmEnough(cfg),
+        /\ rec' = Shift(rec, prev)
+        /\ last' = [al |-> al, n |-> n, adm |-> adm, win |-> adm + InWin, cold |-> cold, warm |-> sat >= WarmEnough(cfg),
                     stuck |-> stuck, cap |-> ProgCap(cfg, ju0, LCMP, ra0)]
         \* a second in which the resource admitted something justifies 1/period of progress
         /\ ju' = Min2(LCMP, ju0 + (IF adm > 0 THEN LCMP \div cfg.p ELSE 0))
@@ -142,8 +162,9 @@ Reload(c2) ==
     /\ ju' = Min2(LCMP, ju + (IF prev > 0 THEN LCMP \div c2.p ELSE 0))
     /\ ra' = ProgRate(cfg, ju, LCMP, ra)
     /\ nre' = nre + 1
-    /\ h' = Append(h, [op |-> "reload", tn |-> c2.tn, td |-> c2.td, p |-> c2.p, c |-> c2.c, cb |-> c2.cb])
-    /\ UNCHANGED <<prev, idle>>
+    /\ h' = Append(h, [op |-> "reload", tn |-> c2.tn, td |-> c2.td, p |-> c2.p, c |-> c2.c, cb |-> c2.cb, si |-> c2.si])
+    /\ c2.si = cfg.si                   \* (the statistic is kept only when the window is unchanged)
+    /\ UNCHANGED <<prev, idle, rec>>
 
 Next == Quiet \/ Busy(1) \/ Busy(SAT) \/ (\E c2 \in Targets(cfg) : Reload(c2))
 Spec == Init /\ [][Next]_vars
@@ -158,23 +179,24 @@ AllowedInRange == (InScope(cfg) /\ Defined(last.al)) =>
                      /\ last.al.n >= 0 /\ last.al.d > 0
                      /\ last.al.n * cfg.td <= cfg.tn * last.al.d
 \* the admitted rate never exceeds the configured threshold (reject: tokens per window; throttling: spacing)
-AdmittedLeT == InScope(cfg) => RateOK(cfg, last.adm)
+AdmittedLeT == InScope(cfg) => RateOK(cfg, last.win)
 \* after the resource has been idle the rate starts no higher than about threshold / coldFactor
 ColdAfterIdle == (InScope(cfg) /\ last.cold /\ Defined(last.al) /\ ~(ExcuseStuck /\ last.stuck)) =>
                      last.al.n <= ColdCap(cfg) * last.al.d
 \* the same in observable form: the number admitted in such a second
-ColdAfterIdleObs == (InScope(cfg) /\ last.cold /\ ~(ExcuseStuck /\ last.stuck)) => last.adm <= ColdCap(cfg)
+ColdAfterIdleObs == (InScope(cfg) /\ last.cold /\ ~(ExcuseStuck /\ last.stuck)) => last.win <= ColdCap(cfg)
 \* after sustained (saturating) demand for the warm-up period the full threshold is reached
 \* (observable form: reject admits exactly floor(T) of the saturating demand, throttling paces it at T)
 WarmAfterSat == (InScope(cfg) /\ last.warm /\ last.n > 1) =>
-                    IF Throttled(cfg) THEN last.adm \in Paced([n |-> cfg.tn, d |-> cfg.td]) ELSE last.adm = FloorT(cfg)
+                    IF Throttled(cfg) THEN last.adm \in Paced([n |-> cfg.tn, d |-> cfg.td]) ELSE last.win = FloorT(cfg)
 \* the same about the effective threshold itself, whatever the control behaviour (T >= 1: below that no token is ever
 \* admitted, so nothing is drained and the observable form holds trivially)
 WarmAfterSatThr == (InScope(cfg) /\ last.warm /\ last.n > 1 /\ Defined(last.al) /\ cfg.tn >= cfg.td) =>
                        last.al.n * cfg.td = cfg.tn * last.al.d
 \* no busy second admits more than the history of the resource justifies (cold after idle is the case ju = 0; after a
 \* reload: no warmer than the old rule was, as a fraction or as an absolute rate)
-ProgressOK == (InScope(cfg) /\ last.n > 0 /\ Defined(last.al)) => last.adm <= last.cap
+\* (stated for the default window: the progress credit is counted in seconds)
+ProgressOK == (InScope(cfg) /\ last.n > 0 /\ Defined(last.al) /\ Si(cfg) = 1000) => last.adm <= last.cap
 \* a steady single-token demand is never starved forever when the threshold is at least one
 NoStarvation == (InScope(cfg) /\ cfg.tn >= cfg.td) => starve < StarveBound(cfg)
 =============================================================================
